@@ -2,7 +2,8 @@
 From Coq Require Import String.
 From Coq Require Import ZArith List Bool.
 From LasV Require Import Lib.Base Lib.Layout Gen.GenHeaderLayout Gen.GenFormatBits Gen.GenDims Model.Las Model.LasSpec
-  Model.LasFast Proofs.HeaderLen Proofs.VlrProofs Proofs.HeaderProofs Proofs.WriterProofs Proofs.RoundTripProofs Proofs.AppendProofs Proofs.CrashProofs Proofs.CrashAppendProofs Proofs.LasFastProofs Proofs.FaultProofs Proofs.FaultAppendProofs.
+  Model.LasFast Proofs.HeaderLen Proofs.VlrProofs Proofs.HeaderProofs Proofs.WriterProofs Proofs.RoundTripProofs Proofs.AppendProofs Proofs.CrashProofs Proofs.CrashAppendProofs Proofs.LasFastProofs Proofs.FaultProofs Proofs.FaultAppendProofs
+  Model.LasDest Proofs.DestProofs Proofs.HistoryProofs.
 Import ListNotations.
 Open Scope list_scope.
 Open Scope Z_scope.
@@ -124,4 +125,117 @@ Example C19_nonvacuous :
   (fault_writes 227 [FOk [r 5]; FTorn [9; 9; 9]; FOk [r 7; r 8]],
    len (accepted [FOk [r 5]; FTorn [9; 9; 9]; FOk [r 7; r 8]]))
   = ([(227, r 5); (247, [9; 9; 9]); (247, r 7 ++ r 8)], 3).
+Proof. vm_compute. reflexivity. Qed.
+
+(* ------------------------------------------------------------------------------------------------------------------ *)
+(* Round 5. (1) THE DESTINATION ALREADY HOLDS BYTES (an older LAS file: longer, shorter, same size, same or another version) when        *)
+(* LasData.write(path) / laspy.open(path, mode='w') starts. Model/LasDest.v: the operations on the destination are positioned writes    *)
+(* and truncations; open(path, 'wb+') empties it first (the harness records the mode, the contents right after the open and every       *)
+(* operation of the implementation, and checks this). From the open on, every image - at every operation and every byte - is an image   *)
+(* of the session on an empty destination, whatever `old` was: it is refused or read as a prefix of the NEW points.                     *)
+(* ------------------------------------------------------------------------------------------------------------------ *)
+Theorem C19_overwrite_image : forall old trace k j, dest_image old (overwrite_ops trace) (S k) j = crash_image trace k j.
+Proof. exact overwrite_image. Qed.
+Print Assumptions C19_overwrite_image.
+
+Theorem C19_overwrite_safe : forall ap h vl fmt chunks evl hb0 eb h' hb1 old k j,
+  enc_header (with_stats h stats0) vl false = Ok hb0 ->
+  enc_vlrs true evl = Ok eb ->
+  final_hdr ap h vl fmt (concat chunks) evl = Ok h' ->
+  enc_header (with_stats (fst hb0) (stats_of_header h')) vl true = Ok hb1 ->
+  wf_header h' vl = true -> wf_header (fst hb0) vl = true -> forallb (wf_vlr true) evl = true ->
+  recs_ok (aint h' "point_size") (concat chunks) = true -> 0 < aint h' "point_size" ->
+  reads_prefix_or_fails (dest_image old (overwrite_ops (write_trace (snd hb0) chunks eb (snd hb1))) (S k) j) (concat chunks).
+Proof. exact overwrite_safe. Qed.
+Print Assumptions C19_overwrite_safe.
+
+Theorem C19_overwrite_fault_safe : forall ap h vl fmt evs evl hb0 epos eb h' hb1 old k j,
+  enc_header (with_stats h stats0) vl false = Ok hb0 ->
+  enc_vlrs true evl = Ok eb ->
+  final_hdr ap h vl fmt (accepted evs) evl = Ok h' ->
+  enc_header (with_stats (fst hb0) (stats_of_header h')) vl true = Ok hb1 ->
+  recs_ok (aint h' "point_size") (accepted evs) = true -> 0 < aint h' "point_size" ->
+  len (snd hb0) + len (concat (accepted evs)) <= epos ->
+  reads_prefix_or_fails (dest_image old (overwrite_ops (fault_trace (snd hb0) evs epos eb (snd hb1))) (S k) j) (accepted evs).
+Proof. exact overwrite_fault_safe. Qed.
+Print Assumptions C19_overwrite_fault_safe.
+
+(* the order matters: a writer that keeps the old file until its new header is in place (open 'rb+', header, truncate) and is interrupted
+   inside that header leaves a file that READS AS THE OLD POINTS. Old file: the records 1, 2; being written: the record 9; interrupted
+   after 100 bytes of the new header *)
+Definition c19_h : assoc := [("version.major", VInt 1); ("version.minor", VInt 2); ("uuid", VBytes (repeat 0 16));
+  ("system_identifier", VBytes [79; 84]); ("generating_software", VBytes []);
+  ("point_format_id", VInt 0); ("point_size", VInt 20); ("scales[0]", VInt 4607182418800017408)]%string.
+Example C19_keep_then_truncate_refuted :
+  let apx := (fun s o x : Z => if x <? 0 then 0 else x) in
+  let r (x : Z) := le_enc 4 x ++ repeat 0 16 in
+  match file_of apx c19_h [] 0 [r 1; r 2] [], enc_header (with_stats c19_h stats0) [] false with
+  | Ok old, Ok hb0 =>
+      match read_file (dest_image old (keep_then_truncate_ops (snd hb0) [(len (snd hb0), r 9)]) 0 100),
+            read_file (dest_image old (overwrite_ops [(0, snd hb0); (len (snd hb0), r 9)]) 1 100) with
+      | Ok lf, Err _ => list_eqb (map (rec_coord 0) (lf_points lf)) [1; 2]
+      | _, _ => false
+      end
+  | _, _ => false
+  end = true.
+Proof. vm_compute. reflexivity. Qed.
+
+(* ------------------------------------------------------------------------------------------------------------------ *)
+(* Round 5. (2) TWO-LEVEL HISTORIES: the image an interrupted session left is the original of a second append session.               *)
+(* Such an image is a header announcing the records A (ANY statistics stA counting them), the records A, and ANY bytes g behind them -  *)
+(* left-over records of the lost session, a torn record, half-overwritten EVLRs. The second session writes its points where the header  *)
+(* says the points end (the harness checks this on the implementation), re-emits any EVLR bytes at or behind them, rewrites the header   *)
+(* with any statistics counting A ++ accepted chunks. Every image of the second session is refused or read as a prefix of               *)
+(* A ++ accepted chunks: nothing of g is ever returned as a point.                                                                  *)
+(* ------------------------------------------------------------------------------------------------------------------ *)
+Theorem C19_history_safe_append : forall W0 vl h0 b0 stA stB hA bA hB bB A evs g epos eb k j,
+  enc_header W0 vl false = Ok (h0, b0) ->
+  enc_header (with_stats h0 stA) vl true = Ok (hA, bA) ->
+  enc_header (with_stats h0 stB) vl true = Ok (hB, bB) ->
+  s_count stA = len A -> s_count stB = len (A ++ accepted evs) ->
+  recs_ok (aint h0 "point_size") A = true -> recs_ok (aint h0 "point_size") (A ++ accepted evs) = true -> 0 < aint h0 "point_size" ->
+  len bA + len (concat A) + len (concat (accepted evs)) <= epos ->
+  reads_prefix_or_fails
+    (crash_from (bA ++ concat A ++ g) (fault_append_trace (len bA + len (concat A)) evs epos eb bB) k j) (A ++ accepted evs).
+Proof. exact history_safe_append. Qed.
+Print Assumptions C19_history_safe_append.
+
+(* both levels: session 1 (chunk events evs1, then anything) interrupted during its point writes, at a call or inside one; session 2
+   appends on the image it left. Full statement wanted: ANY crash point of session 1, the header rewrite included; proved: the crash points
+   before session 1 starts to rewrite its header (k1 < length evs1) and - by C19_history_safe_append with A := A ++ accepted evs1 - the
+   images after the rewrite is complete. Missing: images torn INSIDE the header rewrite of session 1 as originals of session 2 (a header
+   mixing two sets of statistics; the harness evaluates them on the implementation at every byte of the point count) *)
+Theorem C19_two_level_safe_partial : forall W0 vl h0 b0 stA stB hA bA hB bB A g evs1 rest1 k1 j1 evs2 epos eb k2 j2,
+  enc_header W0 vl false = Ok (h0, b0) ->
+  enc_header (with_stats h0 stA) vl true = Ok (hA, bA) ->
+  enc_header (with_stats h0 stB) vl true = Ok (hB, bB) ->
+  s_count stA = len A -> s_count stB = len (A ++ accepted evs2) ->
+  recs_ok (aint h0 "point_size") A = true -> recs_ok (aint h0 "point_size") (A ++ accepted evs2) = true -> 0 < aint h0 "point_size" ->
+  len bA + len (concat A) + len (concat (accepted evs2)) <= epos ->
+  (k1 < length evs1)%nat ->
+  let image1 := crash_from (bA ++ concat A ++ g) (fault_writes (len bA + len (concat A)) evs1 ++ rest1) k1 j1 in
+  reads_prefix_or_fails image1 A
+  /\ reads_prefix_or_fails
+       (crash_from image1 (fault_append_trace (len bA + len (concat A)) evs2 epos eb bB) k2 j2) (A ++ accepted evs2).
+Proof. exact two_level_safe. Qed.
+Print Assumptions C19_two_level_safe_partial.
+
+(* non-vacuity: the file of record 1; a first append session torn after 7 bytes of its chunk (records 5, 6); a second append session
+   storing record 9 on the image: it reads as 1, 9 - and an appender that wrote at the END of the image instead (behind the 7 left-over
+   bytes) would produce a file whose second record is not record 9 *)
+Example C19_two_level_example :
+  let apx := (fun s o x : Z => if x <? 0 then 0 else x) in
+  let r (x : Z) := le_enc 4 x ++ repeat 0 16 in
+  match file_of apx c19_h [] 0 [r 1] [], file_of apx c19_h [] 0 [r 1; r 9] [] with
+  | Ok f0, Ok f1 =>
+      let image1 := crash_from f0 (fault_writes (len f0) [FOk [r 5; r 6]]) 0 7 in
+      let good := crash_from image1 (fault_append_trace (len f0) [FOk [r 9]] (len f0 + 20) [] (firstn 227 f1)) 2 0 in
+      let bad := crash_from image1 (fault_append_trace (len image1) [FOk [r 9]] (len image1 + 20) [] (firstn 227 f1)) 2 0 in
+      match read_file image1, read_file good, read_file bad with
+      | Ok l1, Ok l2, Ok l3 => list_eqb (map (rec_coord 0) (lf_points l1)) [1] && list_eqb (map (rec_coord 0) (lf_points l2)) [1; 9]
+                               && negb (list_eqb (map (rec_coord 0) (lf_points l3)) [1; 9]) && (len image1 =? 227 + 20 + 7)
+      | _, _, _ => false
+      end
+  | _, _ => false
+  end = true.
 Proof. vm_compute. reflexivity. Qed.
